@@ -105,15 +105,10 @@ Section BInst.
   Notation bf := (binary_float prec emax).
 
   Definition Bofz (z : Z) : bf := binary_normalize prec emax Hprec Hmax mode_NE z 0 false.
-  Definition Bis_pos_zero (x : bf) : bool := match x with B754_zero false => true | _ => false end.
-  Definition Bis_neg_zero (x : bf) : bool := match x with B754_zero true => true | _ => false end.
-  Definition Bpos_zero : bf := B754_zero false.
-  (** next_float_up: +inf stays; -0 -> +0.0; otherwise bits +- 1 = IEEE nextUp *)
-  Definition Bnext_up (x : bf) : bf :=
-    if Bis_neg_zero x then Bpos_zero else Bsucc x.
-  (** next_float_down: -inf stays; +0 -> 0.0 (sic); otherwise nextDown *)
-  Definition Bnext_dn (x : bf) : bf :=
-    if Bis_pos_zero x then Bpos_zero else Bpred x.
+  (** next_float_up: +inf stays; -0 is treated as +0; otherwise bits +- 1: IEEE nextUp *)
+  Definition Bnext_up (x : bf) : bf := Bsucc x.
+  (** next_float_down: -inf stays; +0 is treated as -0; otherwise IEEE nextDown *)
+  Definition Bnext_dn (x : bf) : bf := Bpred x.
   Definition Bmaxf : bf := Bmax_float.
   Definition Beps : bf := binary_normalize prec emax Hprec Hmax mode_NE 1 (1 - prec) false.
   Definition Bnan : bf := B754_nan.
